@@ -17,7 +17,7 @@ def build_obs(tier, tables):
     obs += [o for o in parse_step_obs(["CHK_C17"], "c13sec", states=[5], tier=tier, extra_all=("WITH_PATH=1",)) if "validcb" not in o.key]
     # "whether f is found directly or through the search path": the resolution include() delegates to (shared with C17)
     import props.C17 as C17
-    obs += [o for o in C17.build_obs(tier) if o.key.startswith("searchpath-") or o.key.startswith("tilde-")]
+    obs += [o for o in C17.build_obs(tier, with_lexer=False) if o.key.startswith("searchpath-") or o.key.startswith("tilde-")]
     return obs
 
 
